@@ -1724,9 +1724,14 @@ func (f *Frame) siteMapUpdate(x *ssa.MapUpdate, h, k, v Val) {
 		}
 	}
 	defer f.flagEvent("mapupdate:" + fieldPat)
+	// a map that is not read from a named field is addressed by its type, e.g. map[string]*ServiceAdvertisement
+	typePat := strings.ReplaceAll(types.TypeString(x.Map.Type(), func(p *types.Package) string { return "" }), " ", "")
 	for _, s := range f.rootContract().Sites {
-		if s.Kind != "mapupdate" || s.Pattern != fieldPat {
+		if s.Kind != "mapupdate" || (s.Pattern != fieldPat && s.Pattern != typePat) {
 			continue
+		}
+		if s.Pattern == typePat && fieldPat != "" {
+			continue // a field pattern exists for this update; the type pattern is for maps reached otherwise
 		}
 		env := f.envAt(f.cur, nil)
 		env.vars["key"] = Bound{V: k, T: x.Key.Type()}
